@@ -75,4 +75,4 @@ func printManifest() {
 	_ = os.Stdout.Sync()
 }
 
-var hookCommits = []string{}
+var hookCommits = []string{"1db62cac", "88944cae"}
